@@ -199,8 +199,10 @@ reg("C14",
 
 reg("C11",
     gen=lambda seed, tier: (P.gen_metadata_programs(G.Rng(seed + 11), N(tier, 150, 2000)) +
-                            P.gen_attach_rewrite_programs(G.Rng(seed + 111))),
-    monitors=[lambda rr: P.mon_attach(rr) if "attach" in rr.prog.tags else P.mon_metadata(rr)],
+                            P.gen_attach_rewrite_programs(G.Rng(seed + 111)) +
+                            P.gen_cancel_programs(G.Rng(seed + 112))),
+    monitors=[lambda rr: (P.mon_attach(rr) if "attach" in rr.prog.tags else
+                          P.mon_cancel(rr) if "cancel" in rr.prog.tags else P.mon_metadata(rr))],
     nontrivial=lambda rr: has(rr, ("metadata",), ("ok",)),
     rule="programs: one write through write / streamed writer / index insert with explicit or default time, metadata "
          "(type-directed JSON without floats), raw metadata and size; lookups in both flavours and listing compared "
@@ -228,8 +230,8 @@ reg("C17",
          "looks up, reads and lists it")
 
 reg("C19",
-    gen=lambda seed, tier: P.gen_linkto_programs(G.Rng(seed + 19), N(tier, 100, 1000)),
-    monitors=[P.mon_linkto],
+    gen=lambda seed, tier: P.gen_linkto_programs(G.Rng(seed + 19), N(tier, 100, 1000)) + P.gen_link_dotdot_programs(),
+    monitors=[lambda rr: P.mon_link_dotdot(rr) if "dotdot" in rr.prog.tags else P.mon_linkto(rr)],
     nontrivial=lambda rr: has(rr, ("link_to", "link_to_hash", "lcommit"), ("ok",)),
     rule="programs: a target file (0 B .. 40 kB), link_to by absolute or relative path (one-shot, by address, partial "
          "reads before commit, wrong declared size / integrity, address already present as regular content, working directory "
